@@ -71,6 +71,13 @@ def render(case: dict) -> Tuple[str, List[str], Dict[str, str]]:
             lines += [f"{n}, other_{i} = {i}, 2"]
             names.append(n)
             uses.append(f"print({n})")
+        elif k == "condinitclass":
+            # a class defined under a condition (not a statement of the module body), never instantiated by the library
+            cls = f"Guarded{i}"
+            lines += ["import sys", "", f"if len(sys.argv) < 50:", f"    class {cls}:", "        def __init__(self, start):", f"            self.total = start + {i}", "",
+                      "        def __len__(self):", f"            return self.total", "", "else:", f"    {cls} = None", "", ""]
+            names.append(f"{cls}.__init__")
+            uses.append(f"print({cls}(3).total, len({cls}(4)))")
         elif k == "initclass":
             cls = f"Keeper{i}"
             lines += [f"class {cls}:", "    def __init__(self, start):", f"        self.total = start + {i}", "",
